@@ -1809,3 +1809,49 @@ def o18(ctx, rep):
                 ok = True
             rep.check(ok, "O18", fn, "update-entry-field=%s" % f, "the redo can write the bucket page at %s without applying the `%s` of the WAL Update entry to it (%s): whatever the interrupted writeout left in that part of the page is trusted, although the meta-map page and the bucket page of one sync are separate writes and a crash can fall between them" % (wt.get("ln"), f, "no call receives both the field and the page" if not apps else "a path from the arm to the write avoids bb%s" % sorted(apps)), site=wt.get("ln"), detail="`%s` is applied to the page at bb%s on every path to the write at %s" % (f, sorted(apps), wt.get("ln")))
     return n
+
+
+# ---- W6 (C17, C03): where the allocator's page numbers come from -----------------------------------------
+# W2 requires every ln / bbn page writer to take its page numbers from SyncAllocator::allocate; W6 closes the other half: what
+# `allocate` hands out is either a page of the previous state's FREE list (`CleanFreeList::get_nth_pop`, pages the old image does
+# not reference) or a page number at or beyond the previous state's bump (`PageNumber(sync.bump.0 + k)`).  Any other source -
+# the pages the free list itself is stored in, a page released earlier in this very sync - is a page the old meta still
+# references, written before the switch-over.
+
+
+def w6(ctx, rep):
+    facts = ctx.facts
+    al = facts.body(ALLOCATE)
+    fn = short(ALLOCATE)
+    n = 0
+    seen_src = set()
+    for b in range(al.n):
+        if al.is_cleanup(b):
+            continue
+        for s_ in al.stmts(b):
+            if not (s_["k"] == "assign" and s_["pl"]["l"] == 0 and not s_["pl"].get("p") and s_["rv"]["k"] == "agg" and s_["rv"].get("name") == "core::result::Result" and s_["rv"].get("variant") == "Ok"):
+                continue
+            for r in trace(al, s_["rv"]["ops"][0]):
+                n += 1
+                if r.kind == "agg" and r.obj is not None and not r.fields and str(r.what).startswith("core::result::Result"):
+                    n -= 1
+                    continue
+                ok, why = False, "%s %s" % (r.kind, r.what)
+                if r.kind in ("call", "via") and str(r.what).endswith("CleanFreeList::get_nth_pop"):
+                    ok, why = True, "a page of the previous state's free list (get_nth_pop)"
+                elif r.kind == "agg" and str(r.what).endswith("PageNumber") and r.obj is not None:
+                    import termination
+
+                    if all(termination.derives_from(al, o, lambda x: "bump" in x.fields) for o in r.obj.get("ops", [])):
+                        ok, why = True, "a page number computed from the previous state's bump"
+                    else:
+                        why = "a PageNumber not computed from the bump"
+                elif r.kind == "call" and str(r.what) in facts.bodies and facts.bodies[str(r.what)].local_ty(0).endswith("PageNumber") is False:
+                    why = "the result of %s" % short(str(r.what))
+                key = (r.kind, str(r.what), why)
+                if key in seen_src:
+                    n -= 1
+                    continue
+                seen_src.add(key)
+                rep.check(ok, "W6", fn, "source=%s" % (str(r.what).rsplit("::", 1)[-1]), "SyncAllocator::allocate can hand out %s at %s: neither a page of the previous state's free list nor a page at or beyond its bump - a page the old image may still reference would be written before the switch-over" % (why, s_.get("ln")), site=s_.get("ln"), detail=why)
+    return n
